@@ -314,6 +314,22 @@ def step (st : St) : List String → St × String
          | .error er => ({ st with unionTaken := s }, er.toString))
       | (.error er, s) => ({ st with unionTaken := s }, er.toString)
     | _, _ => (st, "bad-op")
+  | ["gattr", schema, declared, actual] =>
+    match parseAll schema >>= toTy, parseAll declared >>= toTy, parseAll actual >>= toTy with
+    | some sk, some d, some ak => (st, "ok " ++ (propOf d sk ak).render)
+    | _, _, _ => (st, "bad-op")
+  | ["listspread", env, items] =>
+    let parsed : Option (List (Bool × Expr)) := match parseAll items with
+      | some (.node its) => allSome (its.map fun it => match it with
+        | .node [.atom "star", e] => (toExpr e).map fun ex => (true, ex)
+        | e => (toExpr e).map fun ex => (false, ex))
+      | _ => none
+    match parseAll env >>= toEnv, parsed with
+    | some Γ, some its =>
+      match onListSpread st.ct Γ its st.unionTaken with
+      | (.ok t, s) => ({ st with unionTaken := s }, "ok " ++ t.render)
+      | (.error er, s) => ({ st with unionTaken := s }, er.toString)
+    | _, _ => (st, "bad-op")
   | ["pytype", env, e] =>
     match parseAll env >>= toValEnv, parseAll e >>= toExpr with
     | some ρ, some ex =>
